@@ -23,7 +23,7 @@ LEVEL_NOTE = ("In-process stack, and the DBOS server stack with the ENGINE SUBST
               "thread stress on one SQLite file is reported as information only.")
 DESIGN_REF = "§5 C26"
 RULE = "case = (program, idle_timeout, send/restart schedule, yield seed) or (lifecycle script); distinct = hash of the scenario; non-trivial = >=1 release and >=1 send at/after it"
-REQUIRED_REACH = ["scenario", "release_snapshot_eval", "send_at_release_instant", "concurrent_senders", "restart_scenario", "conservation_eval", "slow_store", "stack_inproc", "stack_dbos_sub", "two_replicas", "engine_round_trips_take_time", "wake_scenario", "waiter_timeout_inside_release_round_trip", "lifecycle_script", "lifecycle_stalled_releaser",
+REQUIRED_REACH = ["scenario", "release_snapshot_eval", "send_at_release_instant", "concurrent_senders", "restart_scenario", "conservation_eval", "slow_store", "stack_inproc", "stack_dbos_sub", "two_replicas", "engine_round_trips_take_time", "engine_clock_takes_time", "wake_scenario", "waiter_timeout_inside_release_round_trip", "lifecycle_script", "lifecycle_stalled_releaser",
                   "lifecycle_released_period", "lifecycle_crash_timeout_takeover"]
 ASSUMPTIONS = ["an event whose send_event call raised is not counted as sent (the caller was told)"]
 
@@ -44,7 +44,8 @@ def gen_case(seed):
             "store_latency": rnd.choice([None, None, 0.02, 0.1, 0.3]),
             "concurrent": rnd.random() < 0.5, "dup": rnd.random() < 0.3, "yield_seed": rnd.choice([None, seed]), "restart": rnd.random() < 0.35,
             "restart_off": rnd.choice([-0.25, 0.0, 0.001, 0.3]), "store": "sqlite", "stack": rnd.choice(["inproc", "inproc", "dbos_sub"]),
-            "replicas": rnd.choice([1, 2]), "via": [rnd.randrange(2) for _ in range(8)], "engine_latency": rnd.choice([None, None, 0.02, 0.05])}
+            "replicas": rnd.choice([1, 2]), "via": [rnd.randrange(2) for _ in range(8)], "engine_latency": rnd.choice([None, None, 0.02, 0.05]),
+            "clock_latency": rnd.choice([None, 0.05, 0.2])}
 
 
 def run_inproc(case, acc):
@@ -63,12 +64,14 @@ def run_inproc(case, acc):
 
         def violation(self, sig, what, w):
             extra = {"stack": stack, "replicas": case.get("replicas", 1), "engine_latency": bool(case.get("engine_latency")),
+                     "clock_latency": bool(case.get("clock_latency")) and not case.get("engine_latency"),
                      "lifecycle_end": _box.get("lifecycle_end")} if stack != "inproc" else {}
             _v({**sig, **extra}, (f"[{stack} stack x{case.get('replicas', 1)}] " if stack != "inproc" else "") + what, w)
 
     acc = _A()
     acc.hit("stack_" + stack)
-    t_idle = ic.idle_instant(case["spec"], case.get("store_latency"), stack)
+    clock_lat = case.get("clock_latency") if stack == "dbos_sub" and not case.get("engine_latency") else None
+    t_idle = ic.idle_instant(case["spec"], case.get("store_latency"), stack, clock_lat)
     if t_idle is None:
         acc.inconclusive.append(f"reference run never became idle seed={case['seed']}")
         return
@@ -94,7 +97,11 @@ def run_inproc(case, acc):
         acc.hit("two_replicas")
     scn = {"spec": case["spec"], "idle_timeout": I, "sends": sends, "restarts": restarts, "yield_seed": case["yield_seed"], "store": "sqlite", "end": 300.0,
            "store_latency": case.get("store_latency"), "stack": stack, "replicas": replicas,
-           "engine_latency": case.get("engine_latency") if stack == "dbos_sub" else None}
+           "engine_latency": case.get("engine_latency") if stack == "dbos_sub" else None,
+           # the engine's durable clock takes a round trip (only without the other engine latencies, whose race is a recorded finding)
+           "clock_latency": case.get("clock_latency") if stack == "dbos_sub" and not case.get("engine_latency") else None}
+    if scn["clock_latency"]:
+        acc.hit("engine_clock_takes_time")
     if scn["engine_latency"]:
         acc.hit("engine_round_trips_take_time")
     if case.get("store_latency"):
